@@ -5,7 +5,7 @@ from . import c16_util as U
 
 RULE = ("APIs: apis.conventional extended with a recursive tree (nested, mutually recursive part, map entry, nested enum), a type "
         "shared by two RPCs, a nested type of one request named by another request, target files that hold only top-level enums "
-        "(one named from another file), only messages, only a service, a service in a proto sub-package next to root services (listing "
+        "(one named from another file), only messages, only a service, pairs of services where one name is a textual prefix of the other with rpcs of the same names, a service in a proto sub-package next to root services (listing "
         "root methods, sub-package methods, both), chains of enclosing closure of depth 2 and 3 in both "
         "declaration orders (a top-level message reached only as the encloser of a nested type, whose field names a nested type of "
         "the next one), resource references (type / child_type, "
@@ -141,6 +141,8 @@ def build_apis(ctx, n_random):
     rd = U.depref_api()
     out.append({"name": "depref", "req": rd, "transport": "grpc", "knobs": {"dep_package", "dep_resource_ref"}, "e2e": True, "invalid": False,
                 "first": [[U.target_package(rd) + ".Library.CheckOut"]]})
+    rp, hp = U.prefix_services_api()
+    out.append({"name": "prefix-services", "req": rp, "transport": "grpc", "knobs": {"prefix_service"}, "e2e": True, "invalid": False, "first": hp})
     # dedicated APIs built on the shared random generator: the first valid candidate of a fixed rng sequence; a candidate
     # that is not a valid descriptor set is an invalid candidate (skipped and counted), never a failure of the check
     def dedicated(name, make, tag):
@@ -775,19 +777,35 @@ def library_t1(ctx, lb, per_api_graph):
 def run(ctx):
     import time
     t0 = time.time()
-    apis_ = build_apis(ctx, ctx.n(2, 30))
+    apis_ = build_apis(ctx, ctx.n(1, 30))
     schema_items, libs = [], []
+    # corpus: minimised witnesses of the fixed findings and of earlier misses (and anything triage adds). A corpus case on
+    # the very request of a dedicated API joins that API (its configuration goes first, at schema and library level);
+    # any other corpus case runs on its own, before everything else.
+    corpus = {}
+    cdir = os.path.join(env.VERIF, "corpus", "C16")
+    for fn in sorted(os.listdir(cdir)) if os.path.isdir(cdir) else []:
+        if not fn.endswith(".json"):
+            continue
+        c = json.load(open(os.path.join(cdir, fn))).get("case", {})
+        if "request_b64" in c:
+            corpus.setdefault((env.canon_hash(c["request_b64"]), c.get("transport", "grpc")), []).append((fn[:-5], c))
     for ai, api in enumerate(apis_):
         r = env.rng("C16-cfg", ai)
-        # quick: two generic subsets per API (plus the forced ones), the invalid/edge configurations on four APIs only
+        mine = corpus.pop((env.canon_hash(apigen.req_b64(api["req"])), api["transport"]), [])
+        forced = [(f"corpus:{fn} {c.get('label', '')}", c["settings"], c.get("intent", "valid")) for fn, c in mine]
+        # quick: one generic subset next to the forced ones (two when there are none), the invalid/edge configurations on four APIs only
         inv_default = ctx.tier != "quick" or api["name"] in ("witness", "multifile", "conv0", "extended")
-        cfgs = configs_for(r, api["req"], ctx.n(2, 12), invalid=api.get("invalid", True) and inv_default, first=api.get("first", ()))
+        cfgs = configs_for(r, api["req"], ctx.n(1 if api.get("first") else 2, 12), invalid=api.get("invalid", True) and inv_default, first=api.get("first", ()))
+        seen_settings = {json.dumps(st, sort_keys=True) for _, st, _ in forced}
+        cfgs = forced + [c for c in cfgs if json.dumps(c[1], sort_keys=True) not in seen_settings]
         for label, settings, intent in cfgs:
             schema_items.append({"api": api, "label": label, "settings": settings, "intent": intent})
-        # quick: the corpus already runs witness / extended with the configurations that matter, at library level
-        if api["e2e"] and not (ctx.tier == "quick" and api["name"] in ("witness", "extended")):
+        # quick: witness / extended run at library level only with their corpus configurations
+        only_forced = ctx.tier == "quick" and api["name"] in ("witness", "extended")
+        if (api["e2e"] and not only_forced) or forced:
             libs.append({"api": api, "label": "full", "settings": None, "intent": "full"})
-            valid = [c for c in cfgs if c[2] == "valid"]
+            valid = [c for c in cfgs[len(forced):] if c[2] == "valid"]
             bad = [c for c in cfgs if c[2] in ("unknown", "other_version", "dup")]
             nv, nb = ctx.n(2, 8), ctx.n(1, 2)
             if api["name"] in ("witness", "extended", "extended-cyclic"):
@@ -797,21 +815,19 @@ def run(ctx):
             if api["name"].startswith("chain"):
                 nv = 0
             nv += 2 * min(len(api.get("first", ())), ctx.n(2, 99))
-            for label, settings, intent in valid[:nv] + r.sample(bad, min(nb, len(bad))):
+            if only_forced or not api["e2e"]:
+                valid, bad = [], []
+            for label, settings, intent in forced + valid[:nv] + r.sample(bad, min(nb, len(bad))):
                 libs.append({"api": api, "label": label, "settings": settings, "intent": intent})
-    # corpus first: minimised witnesses of the known findings (and anything triage added)
-    cdir = os.path.join(env.VERIF, "corpus", "C16")
-    for fn in sorted(os.listdir(cdir)) if os.path.isdir(cdir) else []:
-        if not fn.endswith(".json"):
-            continue
-        c = json.load(open(os.path.join(cdir, fn))).get("case", {})
-        if "request_b64" not in c:
-            continue
-        api = {"name": "corpus:" + fn[:-5], "req": apigen.req_from_b64(c["request_b64"]), "transport": c.get("transport", "grpc"),
+    for entries in corpus.values():
+        fn, c0 = entries[0]
+        api = {"name": "corpus:" + fn, "req": apigen.req_from_b64(c0["request_b64"]), "transport": c0.get("transport", "grpc"),
                "knobs": {"corpus"}, "e2e": True}
-        it = {"api": api, "label": c.get("label", "corpus"), "settings": c["settings"], "intent": c.get("intent", "valid")}
-        schema_items.insert(0, it)
-        libs[0:0] = [{"api": api, "label": "full", "settings": None, "intent": "full"}, dict(it)]
+        libs.insert(0, {"api": api, "label": "full", "settings": None, "intent": "full"})
+        for k, (fn, c) in enumerate(entries):
+            it = {"api": api, "label": f"corpus:{fn} {c.get('label', '')}", "settings": c["settings"], "intent": c.get("intent", "valid")}
+            schema_items.insert(0, it)
+            libs.insert(1, dict(it))
         apis_.append(api)
     ctx.notes["apis"] = len(apis_)
     ctx.notes["schema_cases"] = len(schema_items)
